@@ -43,11 +43,11 @@ Finding keys: "history/<kind>/measure-differs-from-fresh", "history/<kind>/<clau
 "range/<clause>/<kind of the deepest node whose own measurement is out of range>", "fit/<C01 blame key>" (e.g. "fit/table/leading"),
 "text/min", "text/max", "text/max/blank-lines", "text/wrap-at-max", "crash/<Type>/<file>:<function>".
 
-Measured (default 16 workers, machine shared with other agents, load average 20-60; CPU time is the figure):
-    quick     26 k trees + 9 331 strings + 7 910 histories, 1 008 540 evaluations (+ ~266 k feedback renders),
-              416 outcome signatures (175 non-trivial), ~465 CPU-s (29 s on 16 free cores; 34-64 s wall observed)
-    thorough  140 k trees + 335 923 strings + 159 884 histories, ~14.75 M evaluations, ~3 450 CPU-s
-              (583 s wall under load, before the history part was added: 14 592 182 evaluations)
+Measured (default 16 workers):
+    quick     27.6 k trees (incl. WT 672) + 9 331 strings + 12 126 histories (7 910 mutator + 4 216 shared-argument),
+              1 031 572 evaluations, 476 outcome signatures (216 non-trivial), ~440 CPU-s, 32 s wall (nearly idle)
+    thorough  ~141 k trees + 335 923 strings + ~230 k histories, ~14.9 M evaluations, ~3 500 CPU-s
+              (583 s wall under load, measured before the history / WT parts were added: 14 592 182 evaluations)
 """
 import itertools
 import os
@@ -392,7 +392,7 @@ def check_shared_history(case, res):
     from rich.measure import Measurement
     from rich.text import Text
     d, events = case["init"], case["events"]
-    slot = gen.share_slot(d)
+    slot = gen.share_slot(d).split("+")[0]
     con = gen.make_console("utf8")
     A = HIST_A[events[-1]]
     s = d[2][1][1]["s"]
